@@ -196,8 +196,9 @@ def process_object(data, dic):
 
         obj = klass.from_json_safe(data, dic)
         # the ID may have been registered while this object was being built
-        # (an object nested in its own definition using the same ID)
-        if id_ in dic:
+        # (an object nested in its own definition using the same ID); an object
+        # that registers itself (FlexibleTimeTreeModel) is not a duplicate
+        if id_ in dic and dic[id_] is not obj:
             raise JSONParseError(f"Object with ID `{id_}' already exists")
         dic[id_] = obj
     else:
